@@ -72,6 +72,14 @@ class C19(vlib.Check):
             if rng.random() < 0.7:
                 energies = [round(rng.uniform(-50, 200), rng.choice([4, 4, 9])) for _ in range(nconf)]
                 energies.sort()
+                r2 = rng.random()
+                if r2 < 0.25:
+                    # energies relative to the minimum / degenerate conformers / placeholders: zeros, also every value zero or
+                    # below the 4-decimal precision of the file format
+                    kind = rng.choice(["all-zero", "relative", "below-precision", "negative-zero"])
+                    energies = {"all-zero": [0.0] * nconf, "relative": [0.0] + sorted(round(rng.uniform(0, 9), 4) for _ in range(nconf - 1)),
+                                "below-precision": sorted(rng.uniform(0, 4e-5) for _ in range(nconf)), "negative-zero": [-0.0] * nconf}[kind]
+                    self.count("energies:" + kind)
             case = {"t": "sdf", "ref": ref, "nconf": nconf, "energies": energies, "ext": rng.choice(EXTS),
                     "wlim": rng.choice([None, None, -1, 1, 2, nconf, nconf + 3]), "rlim": rng.choice([None, None, 1, 2, nconf, nconf + 3]),
                     "gaps": rng.random() < 0.25 and nconf >= 3, "own_energy": rng.random() < 0.15,
@@ -182,7 +190,7 @@ class C19(vlib.Check):
             m = self._mol(case)
             back = self._cycle(case, m)
             e = CU.get_conformer_energies_from_mol(back)
-            return {"n": back.GetNumConformers(), "energies": None if e is None else ["%.4f" % x for x in e]}
+            return {"n": back.GetNumConformers(), "energies": None if e is None else ["%.4f" % (x + 0.0) for x in e]}
         return attempt(go)
 
     def model_ops(self, case):
